@@ -33,17 +33,17 @@ var _ backoff.BackOff
 // retransmission is serialised from the same values as the first attempt.
 
 //@ func (*V2Session).buildAndSend$1
-//@ props C03 C04 C05 C09 C10 C11 C13 C18
+//@ props C03 C04 C05 C09 C10 C11 C13 C17 C18
 //@ at Transport).Send assert [C13.attempt-ctx] ctxChildOf(arg[context.Context](1), ctx)
 //@ requires [sess.valid] !isnil(s) && !isnil(s.v2ConnectionShared) && !isnil(s.buffer) && !isnil(s.transport) && !isnil(c) && !isnil(s.decode) && !isnil(ctx) && !isnil(s.confidentialityLayer)
 //@ requires [sess.term] isnil(terminalErr)
 //@ requires [C09.bound] s.AuthenticatedSequenceNumbers.Inbound < 0xfffffffe
 //@ at SerializeLayers assert [C09.seq] s.v2SessionLayer.Sequence == old(s.AuthenticatedSequenceNumbers.Inbound)+1 && sends() == old(sends())
-//@ at SerializeLayers assert [C03.wrapper] s.v2SessionLayer.Encrypted && s.v2SessionLayer.Authenticated && s.v2SessionLayer.ID == s.RemoteID &&
+//@ at SerializeLayers assert [C03+C17.wrapper] s.v2SessionLayer.Encrypted && s.v2SessionLayer.Authenticated && s.v2SessionLayer.ID == s.RemoteID &&
 //@    s.v2SessionLayer.PayloadDescriptor == ipmi.PayloadDescriptorIPMI && s.v2SessionLayer.IntegrityAlgorithm == s.integrityAlgorithm
-//@ at SerializeLayers assert [C03+C10.message] s.messageLayer.Operation == *c.Operation() && s.messageLayer.RemoteAddress == 0x20 && s.messageLayer.RemoteLUN == c.RemoteLUN() &&
+//@ at SerializeLayers assert [C03+C10+C17.message] s.messageLayer.Operation == *c.Operation() && s.messageLayer.RemoteAddress == 0x20 && s.messageLayer.RemoteLUN == c.RemoteLUN() &&
 //@    s.messageLayer.LocalAddress == 0x81 && s.messageLayer.Sequence == 1 && s.messageLayer.CompletionCode == 0
-//@ at SerializeLayers assert [C03+C10.rmcp] s.rmcpLayer.Version == 6 && s.rmcpLayer.Sequence == 0xff && s.rmcpLayer.Class == 7 && !s.rmcpLayer.Ack
+//@ at SerializeLayers assert [C03+C10+C17.rmcp] s.rmcpLayer.Version == 6 && s.rmcpLayer.Sequence == 0xff && s.rmcpLayer.Class == 7 && !s.rmcpLayer.Ack
 //@ at Transport).Send assert [C09.send-seq] s.AuthenticatedSequenceNumbers.Inbound == old(s.AuthenticatedSequenceNumbers.Inbound)+1 && s.v2SessionLayer.Sequence == s.AuthenticatedSequenceNumbers.Inbound
 //@ ensures [C09.step] s.AuthenticatedSequenceNumbers.Inbound == old(s.AuthenticatedSequenceNumbers.Inbound)+uint32(sends()-old(sends())) && sends()-old(sends()) <= 1
 //@ ensures [C10.terminal] !isnil(terminalErr) ==> result == nil
@@ -86,15 +86,15 @@ var _ backoff.BackOff
 // ---- v2sessionless.go / v2session.go: the functions that build the packet around the retry loop
 
 //@ func (*V2Sessionless).buildAndSendCommand
-//@ props C05 C09 C10 C06 C13 C18
+//@ props C05 C09 C10 C06 C13 C17 C18
 //@ at backoff/v4.Retry assert [C13.retry-ctx] backoffBoundTo(arg[backoff.BackOff](1), ctx)
 //@ ensures [C18.frame] metricsOnly(commandRetries, commandResponses)
 //@ requires [conn.valid] !isnil(s) && !isnil(s.buffer) && !isnil(s.transport) && !isnil(c) && !isnil(s.decode) && !isnil(ctx) && !isnil(s.backoff)
-//@ at SerializeLayers assert [C09.null-wrapper] s.v2SessionLayer.ID == 0 && s.v2SessionLayer.Sequence == 0 && !s.v2SessionLayer.Encrypted && !s.v2SessionLayer.Authenticated &&
+//@ at SerializeLayers assert [C09+C17.null-wrapper] s.v2SessionLayer.ID == 0 && s.v2SessionLayer.Sequence == 0 && !s.v2SessionLayer.Encrypted && !s.v2SessionLayer.Authenticated &&
 //@    s.v2SessionLayer.PayloadDescriptor == ipmi.PayloadDescriptorIPMI
-//@ at SerializeLayers assert [C06+C10.message] s.messageLayer.Operation == *c.Operation() && s.messageLayer.RemoteAddress == 0x20 && s.messageLayer.RemoteLUN == c.RemoteLUN() &&
+//@ at SerializeLayers assert [C06+C10+C17.message] s.messageLayer.Operation == *c.Operation() && s.messageLayer.RemoteAddress == 0x20 && s.messageLayer.RemoteLUN == c.RemoteLUN() &&
 //@    s.messageLayer.LocalAddress == 0x81 && s.messageLayer.Sequence == 1 && s.messageLayer.CompletionCode == 0
-//@ at SerializeLayers assert [C06.rmcp] s.rmcpLayer.Version == 6 && s.rmcpLayer.Sequence == 0xff && s.rmcpLayer.Class == 7 && !s.rmcpLayer.Ack
+//@ at SerializeLayers assert [C06+C17.rmcp] s.rmcpLayer.Version == 6 && s.rmcpLayer.Sequence == 0xff && s.rmcpLayer.Class == 7 && !s.rmcpLayer.Ack
 //@ ensures [inv.conn] connValid(s)
 
 //@ func (*V2Sessionless).SendCommand
@@ -107,14 +107,14 @@ var _ backoff.BackOff
 //@ ensures [inv.conn] connValid(s)
 
 //@ func (*V2Sessionless).buildAndSendPayload
-//@ props C05 C09 C10 C06 C13 C18
+//@ props C05 C09 C10 C06 C13 C17 C18
 //@ at backoff/v4.Retry assert [C13.retry-ctx] backoffBoundTo(arg[backoff.BackOff](1), ctx)
 //@ ensures [C18.frame] metricsOnly()
 //@ requires [conn.valid] !isnil(s) && !isnil(s.buffer) && !isnil(s.transport) && !isnil(p) && !isnil(s.decode) && !isnil(ctx) && !isnil(s.backoff)
-//@ at SerializeLayers assert [C09.null-wrapper] s.v2SessionLayer.ID == 0 && s.v2SessionLayer.Sequence == 0 && !s.v2SessionLayer.Encrypted && !s.v2SessionLayer.Authenticated &&
+//@ at SerializeLayers assert [C09+C17.null-wrapper] s.v2SessionLayer.ID == 0 && s.v2SessionLayer.Sequence == 0 && !s.v2SessionLayer.Encrypted && !s.v2SessionLayer.Authenticated &&
 //@    s.v2SessionLayer.PayloadDescriptor == *p.Descriptor()
 //@ ensures [inv.conn] connValid(s)
-//@ at SerializeLayers assert [C06.rmcp] s.rmcpLayer.Version == 6 && s.rmcpLayer.Sequence == 0xff && s.rmcpLayer.Class == 7 && !s.rmcpLayer.Ack
+//@ at SerializeLayers assert [C06+C17.rmcp] s.rmcpLayer.Version == 6 && s.rmcpLayer.Sequence == 0xff && s.rmcpLayer.Class == 7 && !s.rmcpLayer.Ack
 
 //@ func (*V2Session).buildAndSend
 //@ props C05 C09 C10 C13 C18
@@ -325,11 +325,11 @@ func specKInput(st int, n uint8) int {
 //@ requires [hasher.keygen] !isnil(g.(additionalKeyMaterialGenerator).hash) && hState(g.(additionalKeyMaterialGenerator).hash) == hInit(g.(additionalKeyMaterialGenerator).hash)
 //@ ensures [C12.integ-domain] (result1 == nil) == (i == ipmi.IntegrityAlgorithmNone || i == ipmi.IntegrityAlgorithmHMACSHA196 || i == ipmi.IntegrityAlgorithmHMACMD5128 || i == ipmi.IntegrityAlgorithmHMACSHA256128)
 //@ ensures [C12.integ-none] (i == ipmi.IntegrityAlgorithmNone || result1 != nil) == isnil(result0)
-//@ ensures [C01.integ-sha1] i == ipmi.IntegrityAlgorithmHMACSHA196 ==> hSizeOf(result0) == 12 && hState(result0) == hInit(result0) &&
+//@ ensures [C01+C03.integ-sha1] i == ipmi.IntegrityAlgorithmHMACSHA196 ==> hSizeOf(result0) == 12 && hState(result0) == hInit(result0) &&
 //@    hInit(result0) == hmacKeyedDigest("crypto/sha1.New", old(specKInput(hState(g.(additionalKeyMaterialGenerator).hash), 1)), hSizeOf(g.(additionalKeyMaterialGenerator).hash))
-//@ ensures [C01.integ-md5] i == ipmi.IntegrityAlgorithmHMACMD5128 ==> hSizeOf(result0) == 16 && hState(result0) == hInit(result0) &&
+//@ ensures [C01+C03.integ-md5] i == ipmi.IntegrityAlgorithmHMACMD5128 ==> hSizeOf(result0) == 16 && hState(result0) == hInit(result0) &&
 //@    hInit(result0) == hmacKeyedDigest("crypto/md5.New", old(specKInput(hState(g.(additionalKeyMaterialGenerator).hash), 1)), hSizeOf(g.(additionalKeyMaterialGenerator).hash))
-//@ ensures [C01.integ-sha256] i == ipmi.IntegrityAlgorithmHMACSHA256128 ==> hSizeOf(result0) == 16 && hState(result0) == hInit(result0) &&
+//@ ensures [C01+C03.integ-sha256] i == ipmi.IntegrityAlgorithmHMACSHA256128 ==> hSizeOf(result0) == 16 && hState(result0) == hInit(result0) &&
 //@    hInit(result0) == hmacKeyedDigest("crypto/sha256.New", old(specKInput(hState(g.(additionalKeyMaterialGenerator).hash), 1)), hSizeOf(g.(additionalKeyMaterialGenerator).hash))
 //@ ensures [C01.integ-keygen] hState(g.(additionalKeyMaterialGenerator).hash) == hInit(g.(additionalKeyMaterialGenerator).hash)
 
@@ -511,7 +511,8 @@ func specHMACInit(a ipmi.AuthenticationAlgorithm, key []byte) int {
 // ---- sdr_repository.go: the SDR Repository walk (IPMI v2.0 33.9-33.12) and its consistency check
 
 //@ func walkSDRs
-//@ props C14 C13
+//@ props C14 C13 C05
+//@ option peer-terminated:0
 //@ requires [walk.args] !isnil(ctx) && !isnil(s)
 //@ invariant 0 [C14.header-read] getSDRCmd.Req.Offset == 0 && getSDRCmd.Req.Length == 5 && getSDRCmd.Req.ReservationID == reserveSDRRepoCmdResp.ReservationID && !isnil(getSDRCmd)
 //@ at Session).SendCommand assert [C14.partial-read] arg[context.Context](1) == ctx && arg[ipmi.Command](2).(*ipmi.GetSDRCmd) == getSDRCmd && getSDRCmd.Req.ReservationID == reserveSDRRepoCmdResp.ReservationID &&
